@@ -14,6 +14,9 @@ GEOM = ('position', 'source_position', 'sample_position', 'incident_beam', 'scat
 ENERGIES = ('incident_energy', 'final_energy')
 ALL11 = GEOM + ENERGIES
 TARGETS = ('wavelength', 'dspacing', 'energy', 'Q', 'energy_transfer', 'tof', 'L1', 'L2', 'Ltotal', 'two_theta', 'incident_beam', 'scattered_beam')
+# momentum-transfer vector, Miller indices, arrival time at the sample: need coordinates beyond the eleven of the quantifier
+EXTRA = ('sample_rotation', 'u_matrix', 'b_matrix', 'pulse_time')
+TARGETS_EXTRA = ('Qx', 'Qy', 'Qz', 'Q_vec', 'ub_matrix', 'hkl_vec', 'h', 'k', 'l', 'time_at_sample')
 
 # ---- the documented relations (spec, written from the documentation; NOT read from the graph modules) -------------------------
 SPEC_BEAMLINE_SCATTER = {
@@ -21,9 +24,12 @@ SPEC_BEAMLINE_SCATTER = {
     'L1': ('incident_beam',), 'L2': ('scattered_beam',), 'two_theta': ('incident_beam', 'scattered_beam'), 'Ltotal': ('L1', 'L2'),
 }
 SPEC_BEAMLINE_NO_SCATTER = {'Ltotal': ('source_position', 'position')}
+_SPEC_QVEC_HKL = {('Qx', 'Qy', 'Qz'): ('wavelength', 'incident_beam', 'scattered_beam'), 'Q_vec': ('Qx', 'Qy', 'Qz'), 'ub_matrix': ('u_matrix', 'b_matrix'),
+                  'hkl_vec': ('Q_vec', 'ub_matrix', 'sample_rotation'), ('h', 'k', 'l'): ('hkl_vec',)}
 SPEC_ELASTIC = {
-    'tof': {'wavelength': ('tof', 'Ltotal'), 'dspacing': ('tof', 'Ltotal', 'two_theta'), 'energy': ('tof', 'Ltotal'), 'Q': ('wavelength', 'two_theta')},
-    'wavelength': {'dspacing': ('wavelength', 'two_theta'), 'energy': ('wavelength',), 'Q': ('wavelength', 'two_theta')},
+    'tof': {'wavelength': ('tof', 'Ltotal'), 'dspacing': ('tof', 'Ltotal', 'two_theta'), 'energy': ('tof', 'Ltotal'), 'Q': ('wavelength', 'two_theta'),
+            'time_at_sample': ('pulse_time', 'tof', 'L2', 'wavelength'), **_SPEC_QVEC_HKL},
+    'wavelength': {'dspacing': ('wavelength', 'two_theta'), 'energy': ('wavelength',), 'Q': ('wavelength', 'two_theta'), **_SPEC_QVEC_HKL},
     'energy': {'dspacing': ('energy', 'two_theta'), 'wavelength': ('energy',)},
     'Q': {'wavelength': ('Q', 'two_theta')},
 }
@@ -69,6 +75,33 @@ def derivable(target, present, relations):
                 have |= set(outs)
                 changed = True
     return target in have
+
+
+_CLOSURES = {}
+_RELKEY = {}
+_KEEP = []
+
+
+def _derivable_cached(target, have, key, which, relations):
+    """closure of `have` under the relations, memoised per (graph, coordinate set): the same closure answers every target"""
+    rk = _RELKEY.get(id(relations))
+    if rk is None:
+        rk = _RELKEY[id(relations)] = hash(frozenset((o if isinstance(o, tuple) else (o,), tuple(i)) for o, i in relations.items()))
+        _KEEP.append(relations)      # keep the object alive: its id is the cache key
+    k = (rk, have)
+    c = _CLOSURES.get(k)
+    if c is None:
+        c = set(have)
+        changed = True
+        while changed:
+            changed = False
+            for out, ins in relations.items():
+                outs = out if isinstance(out, tuple) else (out,)
+                if not set(outs) <= c and all(i in c for i in ins):
+                    c |= set(outs)
+                    changed = True
+        _CLOSURES[k] = c
+    return target in c
 
 
 def graph_relations(graph):
@@ -236,21 +269,23 @@ def derivability(chk, mod):
     bad = []
     n = 0
     rel_cache = {}
+    # the twelve targets over all 2^11 subsets of the quantifier's coordinates; the vector / hkl / time-at-sample targets over the same
+    # subsets with their extra inputs all present, all absent, and each one missing in turn
+    extra_sets = [set(EXTRA), set()] + [set(EXTRA) - {e} for e in EXTRA]
+    plan = [(t, [set()]) for t in TARGETS] + [(t, extra_sets) for t in TARGETS_EXTRA]
     for origin in ORIGINS:
-        for target in TARGETS:
+        for target, extras in plan:
             if target == origin:
                 continue
             for scatter in (True, False):
+              for extra in extras:
                 for mask in range(1 << len(ALL11)):
-                    present = {ALL11[i] for i in range(len(ALL11)) if mask >> i & 1}
+                    present = {ALL11[i] for i in range(len(ALL11)) if mask >> i & 1} | extra
                     ei, ef = 'incident_energy' in present, 'final_energy' in present
                     n += 1
                     mode = spec_mode(origin, target, ei, ef)
                     if mode == 'error':
                         continue     # refusal checked in energy_mode (complete)
-                    if mode != 'elastic' and not scatter:
-                        # documented behaviour without scattering: only Ltotal and the kinematic quantities
-                        pass
                     key = (origin, target, scatter, mode)
                     if key not in rel_cache:
                         try:
@@ -261,9 +296,9 @@ def derivability(chk, mod):
                     grel, srel = rel_cache[key]
                     if grel is None:
                         continue
-                    have = present | {origin}
-                    a = derivable(target, have, grel)
-                    b = derivable(target, have, srel)
+                    have = frozenset(present | {origin})
+                    a = _derivable_cached(target, have, key, 'g', grel)
+                    b = _derivable_cached(target, have, key, 's', srel)
                     if a != b:
                         if len(bad) < 20:
                             bad.append((origin, target, scatter, sorted(present), f'code graph derivable={a}, documented relations derivable={b}'))
@@ -363,7 +398,8 @@ def _reference_value(target, coords, origin, mode, scatter):
     return None
 
 
-def _real_failures(n, seed, limit=3):
+def _real_failures(n, seed, limit=3, forced=None):
+    """forced: (origin, target, scatter, present) -- run exactly this configuration (replay of a derivability case)"""
     import random
     import warnings
     import numpy as np
@@ -378,8 +414,14 @@ def _real_failures(n, seed, limit=3):
     for i in range(n):
         origin = rnd.choice(ORIGINS)
         target = rnd.choice([t for t in TARGETS if t != origin and t not in ('incident_beam', 'scattered_beam', 'tof')])
+        if i % 5 == 4 and origin in ('tof', 'wavelength'):      # momentum-transfer vector, Miller indices, arrival time at the sample
+            target = rnd.choice([t for t in TARGETS_EXTRA if t != 'time_at_sample' or origin == 'tof'])
         scatter = rnd.random() < 0.8
         present = {c for c in ALL11 if rnd.random() < rnd.choice([0.3, 0.6, 0.9])}
+        if target in TARGETS_EXTRA:
+            present |= {c for c in EXTRA if rnd.random() < 0.85}
+        if forced is not None:
+            origin, target, scatter, present = forced[0], forced[1], forced[2], set(forced[3])
         src, sam = rng.normal(size=3) * 3 + np.array([0, 0, -15.0]), rng.normal(size=3) * 0.1
         pos = rng.normal(size=(2, 3)) * 2 + np.array([0, 0.5, 3.0])
         vals = {
@@ -393,6 +435,12 @@ def _real_failures(n, seed, limit=3):
                           coords={origin: sc.array(dims=[origin], values=xs, unit=units[origin])})
         u = {'L1': 'm', 'L2': 'm', 'Ltotal': 'm', 'two_theta': 'rad', 'incident_energy': 'meV', 'final_energy': 'meV'}
         for c in present:
+            if c in EXTRA:
+                da.coords[c] = {'sample_rotation': lambda: sc.spatial.rotations_from_rotvecs(sc.vector([0.1, 0.2, 0.3], unit='rad')),
+                                'u_matrix': lambda: sc.spatial.rotations_from_rotvecs(sc.vector([0.3, -0.1, 0.2], unit='rad')),
+                                'b_matrix': lambda: sc.spatial.linear_transform(value=[[0.2, 0.01, 0.0], [0.0, 0.25, 0.02], [0.0, 0.0, 0.3]], unit='1/angstrom'),
+                                'pulse_time': lambda: sc.scalar(2.5e6, unit='us')}[c]()     # a time in the unit of tof, as in the package's own tests
+                continue
             v = vals[c]
             if c in ('position', 'scattered_beam'):
                 da.coords[c] = sc.vectors(dims=['spectrum'], values=v, unit='m')
@@ -433,7 +481,7 @@ def _real_failures(n, seed, limit=3):
                 cvals = {c: (vals[c] if c in present else None) for c in ALL11}
                 coords = {c: v for c, v in cvals.items() if v is not None}
                 coords[origin] = xs
-                want = _reference_value(target, coords, origin, mode, scatter)
+                want = _reference_value(target, coords, origin, mode, scatter) if target in TARGETS else None
                 got = o.coords[target]
                 if want is not None:
                     want_unit = {'wavelength': 'angstrom', 'dspacing': 'angstrom', 'energy': 'meV', 'Q': '1/angstrom', 'energy_transfer': 'meV',
@@ -472,6 +520,16 @@ def bounded_real(chk):
 
 
 def replay(rec):
+    if 'succeeds-iff-derivable' in rec['obligation']:
+        # the enumeration names configurations on which the graph the code selects and the documented relations disagree: run them
+        import ast
+        cases = (rec.get('model') or {}).get('cases')
+        cases = ast.literal_eval(cases) if isinstance(cases, str) else (cases or [])
+        for c in cases[:4]:
+            done, fails = _real_failures(1, 7, limit=1, forced=(c[0], c[1], c[2], c[3]))
+            if fails:
+                return {'reproduced': True, 'case': fails[:1]}
+        return {'reproduced': False, 'configurations_tried': [list(c[:4]) for c in cases[:4]]}
     f = rec.get('meta', {}).get('replay')
     if f and 'index' in f:
         done, fails = _real_failures(int(f['index']) + 1, int(f['seed']), limit=10 ** 6)
